@@ -1,6 +1,8 @@
 package parser
 
 import (
+	"strings"
+
 	"github.com/pkg/errors"
 	"github.com/ysugimoto/falco/v2/ast"
 	"github.com/ysugimoto/falco/v2/token"
@@ -950,7 +952,10 @@ func (p *Parser) ParseFallthroughStatement() (*ast.FallthroughStatement, error) 
 }
 
 // caseLabel renders the test of a case clause without the comments attached to it,
-// so that `case "a":` and `case "a" /* comment */:` are recognized as the same label.
+// so that `case "a":` and `case "a" /* comment */:` are recognized as the same label,
+// and with every string concatenation spelled with its operator, so that `case "a" "b":`
+// and `case "a" + "b":` (the same value; a formatter may turn one into the other) are
+// recognized as the same label too - also inside a prefix, postfix, if or call expression.
 func caseLabel(e ast.Expression) string {
 	switch t := e.(type) {
 	case *ast.String:
@@ -963,10 +968,24 @@ func caseLabel(e ast.Expression) string {
 	case *ast.GroupedExpression:
 		return "(" + caseLabel(t.Right) + ")"
 	case *ast.InfixExpression:
-		if t.Explicit {
+		// Operator is "+" for both spellings of a concatenation; for the other infix
+		// operators the label keeps the rendering of InfixExpression.String()
+		if t.Explicit || t.Operator == "+" {
 			return "(" + caseLabel(t.Left) + " " + t.Operator + " " + caseLabel(t.Right) + ")"
 		}
 		return "(" + caseLabel(t.Left) + " " + caseLabel(t.Right) + ")"
+	case *ast.PrefixExpression:
+		return "(" + t.Operator + caseLabel(t.Right) + ")"
+	case *ast.PostfixExpression:
+		return caseLabel(t.Left) + t.Operator
+	case *ast.IfExpression:
+		return "if(" + caseLabel(t.Condition) + ", " + caseLabel(t.Consequence) + ", " + caseLabel(t.Alternative) + ")"
+	case *ast.FunctionCallExpression:
+		args := make([]string, len(t.Arguments))
+		for i, a := range t.Arguments {
+			args[i] = caseLabel(a)
+		}
+		return caseLabel(t.Function) + "(" + strings.Join(args, ", ") + ")"
 	default:
 		return e.String()
 	}
